@@ -179,6 +179,7 @@ func init() {
 		Run: func(c *core.Ctx, r *core.Report) {
 			E5StitchingArity(c, r)
 			E5NameEscape(c, r)
+			E5FunctionDictNeverEmpty(c, r)
 			E4AlphaDivision(c, r)
 			E5JPEGColorSpace(c, r)
 			E5TextStringEncoding(c, r)
